@@ -501,6 +501,24 @@ func coreCompositions() []Prog {
 	fff := []bool{false, false, false}
 	ffff := []bool{false, false, false, false}
 	// repeated and rescaled additions / multiplications (dedup maps of the sparse builder)
+	// argument aliasing: an API call must not change the meaning of its operands - every variadic
+	// op with constants and a variable in every position, then the same variable (and a derived
+	// linear expression) read again
+	for _, op := range []string{"add", "sub", "mul"} {
+		pats := map[string][]Arg{
+			"ccx": {c(2), c(3), in(0)}, "cxc": {c(2), in(0), c(3)}, "xcc": {in(0), c(2), c(3)},
+			"ccxy": {c(5), c(46), in(0), in(1)}, "cxcy": {c(5), in(0), c(2), in(1)}, "c1cx": {c(1), c(5), in(0)},
+		}
+		for _, pn := range []string{"ccx", "cxc", "xcc", "ccxy", "cxcy", "c1cx"} {
+			tier := "quick"
+			if pn == "cxcy" || pn == "xcc" {
+				tier = "thorough"
+			}
+			add("alias_"+op+"_"+pn, tier, ff, []Step{S(op, pats[pn]...), S("add", in(0), c(1)), S("mul", in(0), in(1))}, []OutRef{{0, 0}, {1, 0}, {2, 0}}, nil)
+		}
+		// the operand is itself a linear expression built before the call and used after it
+		add("alias_"+op+"_lin", "quick", ff, []Step{S("add", in(0), in(1)), S(op, c(2), c(3), sref(0, 0)), S("mul", sref(0, 0), in(1))}, []OutRef{{1, 0}, {2, 0}}, nil)
+	}
 	add("add_twice", "quick", ff, []Step{S("add", in(0), in(1)), S("add", in(0), in(1)), S("mul", sref(0, 0), sref(1, 0))}, []OutRef{{2, 0}}, nil)
 	add("add_rescaled", "quick", ff, []Step{S("add", in(0), in(1)), S("mul", in(0), c(2)), S("mul", in(1), c(2)), S("add", sref(1, 0), sref(2, 0)), S("mul", sref(0, 0), sref(3, 0))}, []OutRef{{4, 0}}, nil)
 	add("add_swapped", "quick", ff, []Step{S("add", in(0), in(1)), S("add", in(1), in(0)), S("mul", sref(0, 0), sref(1, 0))}, []OutRef{{2, 0}}, nil)
